@@ -72,7 +72,7 @@ def canonicalize_metadata(
     because python 3 doesn't allow e.g. (3 < "auto") which occurs regularly in metadata.
     """
     if metadata is None:
-        return ()
+        metadata = {}
 
     values: typing.Sequence[typing.Any]
     if isinstance(metadata, dict):
@@ -84,6 +84,9 @@ def canonicalize_metadata(
 
     newvalues = []
     for value in values:
+        if isinstance(value, np.generic):
+            # numpy scalars: use the exact python value (str(np.float32(0.1)) is "0.1")
+            value = value.item()
         if isinstance(value, dict | list | tuple):
             value = canonicalize_metadata(value)
         elif isinstance(value, np.ndarray):
@@ -105,6 +108,7 @@ def canonicalize_metadata(
         newvalues.append(value)
 
     if isinstance(metadata, dict):
-        return tuple(zip(keys, newvalues))
+        # Tag dicts: {} is not [] and {"1": 2} is not [[1, 2]]
+        return ("dict",) + tuple(zip(keys, newvalues))
     else:
         return tuple(newvalues)
